@@ -16,7 +16,7 @@ META = {
     "rule": (
         "exhaustive per length n up to the tier's bound: of_length, up_to_length, first(k) for every k, "
         "unrank(r) / unrank(r, n) / rank for every rank, all notations; all shadings of all mesh patterns of "
-        "length <= 2 for MeshPatt.rank/unrank/of_length; generated: ranks up to sum_{k<=12} k!, standardisation "
+        "length <= 2 for MeshPatt.rank/unrank/of_length; generated: ranks up to sum_{k<=20} k! with every length boundary, standardisation "
         "inputs of ints, floats, strings, Fractions, tuples, bools with repetitions (and equal-but-differently-"
         "typed values), invalid inputs for the validated constructor, histories over the memoised standardisation "
         "(equal keys interleaved with many distinct keys). Non-trivial: boundary ranks (0, first/last of a length), "
@@ -290,20 +290,23 @@ CHECKS = {
 
 # ------------------------------------------------------------------ generators
 TOTAL12 = sum(math.factorial(k) for k in range(13))
+MAXLEN_RANK = 20  # ranks are exact integers: lengths far beyond any lookup table are cheap to check
+TOTAL_MAX = sum(math.factorial(k) for k in range(MAXLEN_RANK + 1))
 
 
 @st.composite
 def big_rank_cases(draw):
-    n = draw(st.integers(0, 12))
+    n = draw(st.integers(0, MAXLEN_RANK))
     edge = draw(st.sampled_from(["any", "first", "last"]))
     nf = math.factorial(n)
     r_in = {"any": draw(st.integers(0, nf - 1)), "first": 0, "last": nf - 1}[edge]
     which = draw(st.sampled_from(["any", "boundary"]))
     if which == "any":
-        r = draw(st.integers(0, TOTAL12 - 1))
+        r = draw(st.one_of(st.integers(0, TOTAL12 - 1), st.integers(0, TOTAL_MAX - 1)))
     else:
-        m = draw(st.integers(0, 12))
-        r = sum(math.factorial(k) for k in range(m)) + draw(st.sampled_from([0, math.factorial(m) - 1]))
+        m = draw(st.integers(0, MAXLEN_RANK))
+        r = sum(math.factorial(k) for k in range(m)) + draw(st.sampled_from([0, 1, math.factorial(m) - 1]))
+        r = min(r, TOTAL_MAX - 1)
     return {"r": r, "n": n, "r_in": r_in}
 
 
